@@ -72,6 +72,9 @@ class HTTPDriver(explore.Driver):
         for n in sorted(ns):
             if n >= 0 and st.pos + n <= L:
                 out.append((["read", n], 0))
+        # "everything up to the end": no argument, -1, None
+        for how in ("noarg", "minus1", "none"):
+            out.append((["read_all", how], 0))
         if self.past_eof:
             out.append((["read", L - st.pos + 1], 1))
             out.append((["read", L - st.pos + cs + 1], 1))
@@ -84,7 +87,10 @@ class HTTPDriver(explore.Driver):
         st.err = None
         try:
             if kind == "seek_set":
-                f.seek(op[1], os.SEEK_SET)
+                if op[1] % 2:
+                    f.seek(op[1], os.SEEK_SET)
+                else:
+                    f.seek(op[1])           # whence defaults to SEEK_SET
                 st.pos = op[1]
             elif kind == "seek_cur":
                 f.seek(op[1], os.SEEK_CUR)
@@ -100,6 +106,12 @@ class HTTPDriver(explore.Driver):
                 got = f.read(n)
                 st.last = (n, st.pos, bytes(got), exp)
                 st.pos = min(st.pos + n, self.L)
+            elif kind == "read_all":
+                exp = self.blob[st.pos:]
+                got = {"noarg": lambda: f.read(), "minus1": lambda: f.read(-1),
+                       "none": lambda: f.read(None)}[op[1]]()
+                st.last = (self.L - st.pos, st.pos, bytes(got), exp)
+                st.pos = self.L
             got_pos = f.tell()
             # file-object semantics: a read that is cut short at the end of
             # the resource leaves the position at the end (a later relative
@@ -287,7 +299,7 @@ def _ds_case(args):
 
 
 def run(ctx):
-    depth = 5 if ctx.quick else 6
+    depth = 5 if ctx.quick else 9
     dev = 1
     cfgs = grid(ctx)
     results = par.pmap(_run_cfg, [(c, depth, dev) for c in cfgs])
